@@ -35,7 +35,22 @@ _WFN_G = ["xxxx", "yyyy", "zzzz", "xxxy", "xxxz", "xyyy", "yyyz", "xzzz", "yzzz"
 _WFN_H = ["zzzzz", "yzzzz", "yyzzz", "yyyzz", "yyyyz", "yyyyy", "xzzzz", "xyzzz", "xyyzz", "xyyyz", "xyyyy",
           "xxzzz", "xxyzz", "xxyyz", "xxyyy", "xxxzz", "xxxyz", "xxxyy", "xxxxz", "xxxxy", "xxxxx"]
 
+def _alphabetical(l):
+    """Cartesian functions of degree l in alphabetical order of their labels (xx, xy, xz, yy, yz, zz, ...)."""
+    return ["x" * nx + "y" * ny + "z" * (l - nx - ny) for nx in range(l, -1, -1) for ny in range(l - nx, -1, -1)]
+
+
+def _by_m(l):
+    """Real solid harmonics by increasing m = -l..l: s_l ... s_1, c0, c1 ... c_l (LibInt / CCA standard)."""
+    return [f"s{m}" for m in range(l, 0, -1)] + ["c0"] + [f"c{m}" for m in range(1, l + 1)]
+
+
 DOCUMENTED = {
+    # HORTON 2 documentation ("Gaussian basis sets"): Cartesian functions in alphabetical order, pure functions c0, c1, s1, c2, s2, ...
+    "HORTON2": {(0, "c"): ["1"], **{(l, "c"): _alphabetical(l) for l in range(1, 10)}, **{(l, "p"): _pure(l) for l in range(2, 10)}},
+    # Kenny et al., J. Comput. Chem. 29, 562 (2008), appendix B, made precise by the LibInt wiki: Cartesian functions in
+    # lexicographic (alphabetical) order, solid harmonics by increasing m
+    "CCA": {(0, "c"): ["1"], **{(l, "c"): _alphabetical(l) for l in range(1, 10)}, **{(l, "p"): _by_m(l) for l in range(2, 10)}},
     # Multiwfn manual, section 2.5: same order as Gaussian for s, p, d (Cartesian and spherical)
     "mwfn": {(0, "c"): ["1"], (1, "c"): ["x", "y", "z"], (2, "c"): _GAUSS_D, (2, "p"): _pure(2)},
     "fchk": {(0, "c"): ["1"], (1, "c"): ["x", "y", "z"], (2, "c"): _GAUSS_D, (3, "c"): _GAUSS_F,
